@@ -156,6 +156,13 @@ def scenarios():
                 n_good += 1
         S.append({"name": nm, "stack_refuses_priority": 9, "apps": apps_, "requests": reqs_,
                   "streams": [{"key": [1, 0, "create"], "responses": K(n_good, [1, 2][:n_good])}]})
+    # 11d. another application opens ITS socket (same socket id, another remote node) at any moment - also while a response for
+    # the first application is waiting to be handed over
+    S.append({"name": "another-application-opens-its-socket", "apps": [
+        {"app": 0, "unit": 2, "text": recv_k(0, 1, [0, 1], remote=1) + wall(0, 2)},
+        {"app": 1, "unit": 1, "open_socket": [0, 2], "text": recv_k(0, 1, [0], remote=2) + wall(0, 1)}],
+        "requests": [req(0, "recv", "K", 2, 0, [0, 1], remote=1), req(1, "recv", "K", 1, 0, [0], remote=2)],
+        "streams": [{"key": [1, 0, "recv"], "responses": K(2, [1, 2])}, {"key": [2, 0, "recv"], "responses": K(1)}]})
     # 12. create requests whose result arrays are larger than their number of pairs needs (hand-written subroutine)
     S.append({"name": "create-oversized-result-arrays", "apps": [{"app": 0, "unit": 3, "text":
               arr(0, 30) + arr(2, 20) + stores(2, [0, 1]) + arr(1, 1) + stores(1, [0]) + "create_epr(1,0) 1 2 0\n" +
@@ -347,6 +354,10 @@ def gen_scenario(rng):
         if rng.random() < 0.3:
             text += "ret_arr @0\n"
         apps.append({"app": ai, "unit": max(1, nextq) + rng.randrange(2), "text": text, "stop": rng.random() < 0.45})
+        if plans[ai] and rng.random() < 0.35:
+            # its host opens (one of) its EPR socket(s) at some moment of the run rather than before everything else
+            remote_, socket_, _role = rng.choice(plans[ai])["key"]
+            apps[-1]["open_socket"] = [socket_, remote_]
     streams = []
     for key in sorted(users):
         resp = []
